@@ -423,7 +423,7 @@ impl Property for C05 {
         let cfg = PartCfg {
             name: "inject",
             rule: "a valid generated history with 1-6 out-of-protocol or malformed indexer calls injected at generated positions (also mid-block): calls on the property's must-reject list must return an error; every rejected call must leave the full observation (incl. txpool) unchanged; all remaining calls must answer exactly as on a twin that never saw the rejected calls, and the final observations must be equal. Non-trivial = a call rejected mid-block followed by at least one more accepted transaction in the same block",
-            cases: ctx.tier.pick(400, 8000),
+            cases: ctx.tier.pick(1000, 12_000),
             max_shrink_iters: ctx.tier.pick(250, 1000),
         };
         explore(ctx, ev, &cfg, strategy, check)
